@@ -280,6 +280,15 @@ CORPUS = [
      {"how": "nodemaker", "s": b"URI:DIR2-CHK:aeaqcaibaeaqcaibaeaqcaibae:aibaeaqcaibaeaqcaibaeaqcaibaeaqcaibaeaqcaibaeaqcaiba:3:10:1000".hex(), "s2": None, "imm": False}),
     ({"how": "from_string", "s": b"URI:FUTURE:abc".hex(), "imm": False},
      {"how": "from_string", "s": b"URI:FUTURE:abc".hex(), "imm": False}),
+    # unknown-format caps that differ only in an alleged-strength prefix are different strings   [seeded change C43-d]
+    ({"how": "from_string", "s": b"URI:FUTURE:abc".hex(), "imm": False},
+     {"how": "from_string", "s": b"ro.URI:FUTURE:abc".hex(), "imm": False}),
+    ({"how": "from_string", "s": b"URI:FUTURE:abc".hex(), "imm": False},
+     {"how": "from_string", "s": b"imm.URI:FUTURE:abc".hex(), "imm": False}),
+    ({"how": "from_string", "s": b"ro.URI:FUTURE:abc".hex(), "imm": False},
+     {"how": "from_string", "s": b"imm.URI:FUTURE:abc".hex(), "imm": False}),
+    ({"how": "unknown_node_cap", "s": None, "s2": b"ro.URI:FUTURE-RO:x".hex(), "imm": False},
+     {"how": "unknown_node_cap", "s": None, "s2": b"imm.URI:FUTURE-RO:x".hex(), "imm": False}),
     # near misses: same key and UEB hash, another k / N / size (nodes and bare caps)   [seeded change C43-a]
     ({"how": "node", "s": (_CHK + b":3:10:1000").hex()}, {"how": "node", "s": (_CHK + b":4:10:1000").hex()}),
     ({"how": "node", "s": (_CHK + b":3:10:1000").hex()}, {"how": "node", "s": (_CHK + b":3:11:1000").hex()}),
